@@ -40,9 +40,11 @@ check('C08', 'other',
       'bounded symbolic execution of the real statement dispatch / unit / group capability bookkeeping (CrossHair + z3), sub-compiler outcomes symbolic',
       'Solver-decided over every top-level statement kind (hand-built AST nodes) x every outcome of the schema-dependent sub-compilers '
       '(has_dml, migration transaction action, configuration scope): the capability set of the statement, of its QueryUnit and of '
-      'the QueryUnitGroup contains the capability the statement needs; a group carries exactly the union of its units. The half of '
-      'C08 about has_dml being recorded in every nesting context needs real compilation and is not decided.',
-      'Trusted: expected() table in the harness; the six sub-compilers that need the std schema are stand-ins with symbolic outcomes.',
+      'the QueryUnitGroup contains the capability the statement needs; a group carries exactly the union of its units. In addition, '
+      'hand-built queries with DML in 14 nesting contexts (plain and under ANALYZE) go through the REAL query compilation path: '
+      'MODIFICATIONS / has_dml is reported exactly when the statement contains a data-modifying sub-statement.',
+      'Trusted: expected() table in the harness; for the dispatch part the sub-compilers are stand-ins with symbolic outcomes; the real-path '
+      'part uses a transcribed fragment of the standard library.',
       'DESIGN.md section 4, C08')
 
 check('C09', 'model_checking',
